@@ -220,7 +220,7 @@ UNITS["visible"] = {
          "requires": ("        parents_ok(self.file.layers.layers@, self.file.layers.parents@),\n"
                       "        (self.layer_id as int) < self.file.layers.layers.len(),"),
          "ensures": "        r == spec_visible(self.file.layers.layers@, self.file.layers.parents@, self.layer_id as int),",
-         "body_rewrites": [("self.file.layers[layer_id]", "self.file.layers.layers[layer_id as usize]")],
+         "rules": ["R1", "R6", "R8"],
          "loops": {1: ("            invariant\n"
                        "                parents_ok(self.file.layers.layers@, self.file.layers.parents@),\n"
                        "                (layer_id as int) < self.file.layers.layers.len(),\n"
@@ -290,6 +290,7 @@ pub open spec fn spec_tile_offsets(tm: &Tilemap) -> (int, int) {
          "ensures": ("        ({ let sx = x as int - spec_tile_offsets(self).0; let sy = y as int - spec_tile_offsets(self).1;\n"
                      "           let d = self.spec_data();\n"
                      "           if 0 <= sx < d.width as int && 0 <= sy < d.height as int { *r == d.tiles.0[sy * (d.width as int) + sx] } else { r.id == TileId(0) } }),"),
+         "rules": ["R1", "R6", "R7"],
          "body_rewrites": [("&self.tilemap().tiles[index]", "&self.tilemap().tiles.0[index]")],
          "hints": [("let index =",
                     "        assert((y as int) * (w as int) + (x as int) < (w as int) * (h as int)) by (nonlinear_arith)\n"
@@ -1439,7 +1440,7 @@ UNITS["compose"] = {
         {"kind": "fn", "file": "layer", "name": "data", "impl_of": "Layer", "impl_header": "<'a> Layer<'a>", "ret": "r",
          "requires": "        (self.layer_id as int) < self.file.layers.layers.len(),",
          "ensures": "        *r == self.file.layers.layers[self.layer_id as int],",
-         "body_rewrites": [("&self.file.layers[self.layer_id]", "&self.file.layers.layers[self.layer_id as usize]")]},
+         "rules": ["R1", "R6", "R8"]},
         {"kind": "fn", "file": "layer", "name": "blend_mode", "impl_of": "Layer", "impl_header": "<'a> Layer<'a>", "ret": "r",
          "requires": "        (self.layer_id as int) < self.file.layers.layers.len(),",
          "ensures": "        r == self.file.layers.layers[self.layer_id as int].blend_mode,"},
@@ -1475,21 +1476,20 @@ UNITS["compose"] = {
                      "                Some(c) => cel_px(self, &c, Rgba([0u8, 0u8, 0u8, 0u8]), cx, cy),\n"
                      "                None => Rgba([0u8, 0u8, 0u8, 0u8]),\n"
                      "            }),")},
-        {"kind": "fn", "file": "file", "name": "frame_image", "impl_of": "AsepriteFile", "ret": "r", "rules": ["R1", "R2", "R6"],
+        {"kind": "fn", "file": "file", "name": "frame_image", "impl_of": "AsepriteFile", "ret": "r", "rules": ["R1", "R2", "R6", "R8"],
          "requires": "        file_ok(self), (frame as int) < self.framedata.data.len(),",
          "ensures": ("        r.w() == self.width, r.h() == self.height,\n"
                      "        forall|cx: int, cy: int| 0 <= cx < r.w() && 0 <= cy < r.h() ==>\n"
                      "            #[trigger] r.at(cx, cy) == frame_px(self, cels_of(self.framedata.data[frame as int]@), cels_of(self.framedata.data[frame as int]@).len() as int, cx, cy),"),
          "body_rewrites": [("for (layer_id, cel) in self.framedata.frame_cels(frame)", "for (layer_id, cel) in it: self.framedata.frame_cels(frame)")],
-         "hints": [("for (layer_id, cel) in", "        proof { lemma_cels_of(self.framedata.data[frame as int]@); }", "before"),
-                   ("self.layer(layer_id).is_visible()",
-                    "            proof {\n"
+         "hints": [("for (layer_id, cel) in", "        proof { lemma_cels_of(self.framedata.data[frame as int]@); }", "before")],
+         "loop_begins": {1: ("            proof {\n"
                     "                let k = it.index@ as int;\n"
                     "                let e = cels_of(self.framedata.data[frame as int]@)[k];\n"
                     "                assert(it.snapshot@.remaining()[k].0 == e.0 && *it.snapshot@.remaining()[k].1 == e.1);\n"
                     "                assert(layer_id == e.0 && *cel == e.1);\n"
                     "                assert(self.framedata.at(frame as int, e.0 as int) == Some(e.1));\n"
-                    "            }", "before")],
+                    "            }")},
          "loops": {1: ("            invariant\n"
                        "                file_ok(self), (frame as int) < self.framedata.data.len(),\n"
                        "                image.w() == self.width, image.h() == self.height,\n"
@@ -1789,7 +1789,7 @@ impl CelsData {
         G("file", "Frame", "id", "r == self.index,", hdr="<'a> Frame<'a>"),
         G("file", "Frame", "duration", "r == self.file.frame_times[self.index as int] as u32,", requires="(self.index as int) < self.file.frame_times.len(),", hdr="<'a> Frame<'a>"),
         G("layer", "Layer", "data", "*r == " + LD + ",", requires=LAYER_OK, hdr="<'a> Layer<'a>",
-          body_rewrites=[("&self.file.layers[self.layer_id]", "&self.file.layers.layers[self.layer_id as usize]")]),
+          rules=["R1", "R6", "R8"]),
         G("layer", "Layer", "id", "r == self.layer_id,", hdr="<'a> Layer<'a>"),
         G("layer", "Layer", "flags", "r == " + LD + ".flags,", requires=LAYER_OK, hdr="<'a> Layer<'a>"),
         G("layer", "Layer", "opacity", "r == " + LD + ".opacity,", requires=LAYER_OK, hdr="<'a> Layer<'a>"),
